@@ -28,6 +28,15 @@ CHECKS = {
                      "unchanged checksum; every dependent runs in the same command after a changed one) and contents must equal the from-scratch evaluation. "
                      "The run fails as vacuous unless all four quadrants (changed/unchanged x in-band/out-of-band) were exercised.",
                 note="Trusted: reference model; flat worlds; -j1."),
+    "C05": dict(engine="E1 (+E2 for -j2, see C09)", category="model_checking", design_ref="DESIGN.md §4 C05",
+                technique="exhaustive enumeration of command lines / dependency lists x fail points x -k as multi-run histories on the real binary, reference-simulation oracle",
+                text="World {f fails iff flag, g->f, h independent, i->h}. Every ordered selection of <=3 of {f,g,h,i} as the argument list of redo-ifchange, "
+                     "of redo, and as the redo-ifchange list inside all.do, with and without keep-going, failing at the first build or at a later rebuild; "
+                     "each as the history build / build again / repair / build. Every build step is judged: exit status, executed set == reference "
+                     "(failed target retried next run, never twice in a run, dependents not treated as up to date), -k builds every buildable requested "
+                     "target, no `do` record after a non-zero `done` within a process, contents after exit 0.",
+                note="Serial (-j1) enumeration is complete for this world and list length <=3; other graph shapes are covered only through C01/C02's fail world. "
+                     "Parallel interleavings are explored by the E2 scenarios."),
 }
 
 NOT_YET = "check not built yet in this session (work in progress; see DESIGN.md §4 for the planned bounded exhaustive check)"
